@@ -17,12 +17,25 @@ import (
 // 1/Unit world units (Case.Unit, 1000 unless a flavour needs finer ones).
 // t = sphere: centre P, radius R; box: centre P, full size Q; line: from P to
 // Q, radius R. S is the field strength in 1/1000.
+//
+// The "grazing" kinds (MarchGraze.tla) are given relative to the canvas'
+// LATTICE instead: P is a lattice point (cells), Q an integer direction, R a
+// size in 1/1000 cell and G[0] the depth, in 1e-7 cells, by which P lies
+// inside (negative: outside) the iso-surface of the case's threshold:
+//
+//	gsphere : sphere of radius R whose outward normal at the point nearest to P is Q
+//	gbox    : cube of half size R one of whose corners (the one in direction Q,
+//	          components +-1) lies G[0] beyond P on every axis
+//	gline   : capsule of radius R/2 and half length R/2 touched sideways, normal Q
+//
+// graze.go turns them into the world-space parameters of sphere/box/line.
 type Shape struct {
 	T string `json:"t"`
 	P []int  `json:"p"`
 	Q []int  `json:"q"`
 	R int    `json:"r"`
 	S int    `json:"s"`
+	G []int  `json:"g"`
 }
 
 // Case is the union of the three case kinds of the family.
@@ -51,6 +64,9 @@ type Case struct {
 	Flavour string  `json:"flavour,omitempty"` // generator label (reports only)
 	Org     []int   `json:"org,omitempty"`     // projection origin, 1/Unit world units
 	Scale   int     `json:"scale,omitempty"`   // projection: integer units per world unit
+	Par     int     `json:"par,omitempty"`     // 1: MarchParallel / MarchOnAttributeParallel
+	Pre     int     `json:"pre,omitempty"`     // marches of the same canvas (other thresholds) BEFORE the observed one
+	Decoy   int     `json:"decoy,omitempty"`   // another field under another attribute on the same canvas (1 added before, 2 after)
 
 	// prim
 	Prim  string `json:"prim,omitempty"`
@@ -60,6 +76,9 @@ type Case struct {
 	D     []int  `json:"d,omitempty"` // dimensions in 1/16 units
 	UV    int    `json:"uv,omitempty"`
 	Chain int    `json:"chain,omitempty"`
+	Hist  int    `json:"hist,omitempty"` // > 0: member of a history (consecutive cases with the same number): every mesh is kept and observed again after the last constructor call
+	Ord   int    `json:"ord,omitempty"`  // position inside the history / group (chosen by the generator)
+	Conc  int    `json:"conc,omitempty"` // > 0: member of a group whose constructors are called at the same time from several goroutines
 }
 
 // Line is one observation. Only integers, strings and booleans; slices are
@@ -76,10 +95,32 @@ type Line struct {
 	Off   [][]int         `json:"off"`   // shape: per vertex offset from the nearest lattice point, 1e-5 cells
 	Cls   []int           `json:"cls"`   // prim: per vertex position class (coincident positions merged at 1e-6)
 	Nrm   [][]int         `json:"nrm"`   // prim: per vertex normal * 256 ([] when the mesh has no normals)
+
+	// prim histories / concurrent groups (history.go). The fields above are the
+	// observation made when the constructor returned.
+	After int   `json:"after"` // constructor calls made between that moment and the second observation of the SAME mesh value
+	Peers int   `json:"peers"` // constructor calls of other goroutines that ran at the same time as this case's calls
+	Alt   []Alt `json:"alt"`   // every further observation of this case that differs from the first one
+}
+
+// Alt is another observation of the same case: the mesh the caller still
+// holds, projected again after later constructor calls ("kept"), or the
+// result of the same call made while other goroutines construct primitives
+// ("conc"). Observations equal to the first one are not repeated (lossless:
+// TLC would judge them exactly as it judges the first).
+type Alt struct {
+	Why   string  `json:"why"`
+	Res   string  `json:"res"`
+	Err   string  `json:"err"`
+	Exact bool    `json:"exact"`
+	Tris  [][]int `json:"tris"`
+	Pos   [][]int `json:"pos"`
+	Cls   []int   `json:"cls"`
+	Nrm   [][]int `json:"nrm"`
 }
 
 func emptyLine(kind string, raw json.RawMessage) Line {
-	return Line{K: kind, Case: raw, Res: "OK", Exact: true, Tris: [][]int{}, Pos: [][]int{}, Fd: []int{}, Off: [][]int{}, Cls: []int{}, Nrm: [][]int{}}
+	return Line{K: kind, Case: raw, Res: "OK", Exact: true, Tris: [][]int{}, Pos: [][]int{}, Fd: []int{}, Off: [][]int{}, Cls: []int{}, Nrm: [][]int{}, Alt: []Alt{}}
 }
 
 func v3(p []int, unit float64) vector3.Float64 {
@@ -152,8 +193,11 @@ func execCase(raw json.RawMessage) Line {
 
 // RunCases executes the cases of `in` (ndjson; lines {"k":"reset"} are copied
 // through) with `par` workers and writes one observation line per case, in
-// input order.
-func RunCases(in, out string, par int) error {
+// input order. Consecutive cases with the same history number (or the same
+// concurrent-group number) form one unit that a single worker executes
+// (history.go); with par = 1 the whole file is one deterministic sequence of
+// calls in one process.
+func RunCases(in, out string, par, rounds int) error {
 	fi, err := os.Open(in)
 	if err != nil {
 		return err
@@ -174,32 +218,60 @@ func RunCases(in, out string, par int) error {
 	if par < 1 {
 		par = 1
 	}
+	type probe struct {
+		K    string `json:"k"`
+		Kind string `json:"kind"`
+		Hist int    `json:"hist"`
+		Conc int    `json:"conc"`
+	}
+	probes := make([]probe, len(raws))
+	for i := range raws {
+		_ = json.Unmarshal(raws[i], &probes[i])
+	}
+	type unit struct{ from, to int } // raws[from:to]
+	var units []unit
+	for i := 0; i < len(raws); {
+		j := i + 1
+		if probes[i].Kind == "prim" && (probes[i].Hist > 0 || probes[i].Conc > 0) {
+			for j < len(raws) && probes[j].Kind == "prim" && probes[j].Hist == probes[i].Hist && probes[j].Conc == probes[i].Conc {
+				j++
+			}
+		}
+		units = append(units, unit{i, j})
+		i = j
+	}
 	results := make([][]byte, len(raws))
 	var wg sync.WaitGroup
-	next := make(chan int)
+	next := make(chan unit)
 	for w := 0; w < par; w++ {
 		wg.Add(1)
 		go func() {
 			defer wg.Done()
-			for i := range next {
-				var probe struct {
-					K string `json:"k"`
-				}
-				_ = json.Unmarshal(raws[i], &probe)
-				if probe.K == "reset" {
-					results[i] = raws[i]
+			for u := range next {
+				var lines []Line
+				switch {
+				case probes[u.from].K == "reset":
+					results[u.from] = raws[u.from]
 					continue
+				case probes[u.from].Conc > 0:
+					lines = execConcurrent(raws[u.from:u.to], rounds)
+				case probes[u.from].Hist > 0:
+					lines = execHistory(raws[u.from:u.to])
+				default:
+					lines = []Line{execCase(raws[u.from])}
 				}
-				b, err := json.Marshal(execCase(raws[i]))
-				if err != nil {
-					panic(err)
+				for k, ln := range lines {
+					b, err := json.Marshal(ln)
+					if err != nil {
+						panic(err)
+					}
+					results[u.from+k] = b
 				}
-				results[i] = b
 			}
 		}()
 	}
-	for i := range raws {
-		next <- i
+	for _, u := range units {
+		next <- u
 	}
 	close(next)
 	wg.Wait()
